@@ -662,6 +662,13 @@ pub fn spec() -> PropSpec {
         min_counts: &[("cross_process_ok", 3)],
       },
       Check {
+        name: "rejection-runs",
+        rule: "share() draws its polynomial from a DETERMINISTIC stream (a function of threshold, message and coins) through the sharks dealer: a dealer that gives up after N rejected candidates makes particular triples unshareable (none of which a bounded enumeration of triples would meet: 2^-N each). Decided at the seam: the dealer under a caller-supplied source that offers up to 300 out-of-range candidates in a row never gives up (t in {2,3,5})",
+        gen: |_| [2u64, 3, 5].iter().map(|t| json!({"t": t, "prop": "C16"})).collect(),
+        run: super::c06::run_rejection_runs,
+        min_counts: &[("rejection_runs_survived", 60)],
+      },
+      Check {
         name: "length-square",
         rule: "EVERY (message length, coin length) pair with message length 0..=200, coin length 0..=200 and sum <= 340 (t = 2): two independent shares recover the message (a cipher/MAC path that depends on the two lengths together)",
         gen: |_| (0..=200u64).map(|ml| json!({"ml": ml})).collect(),
